@@ -14,7 +14,7 @@ import itertools
 
 import fiddle as fdl
 
-from vt import kinds, sigs, tags as vtags
+from vt import kinds, nodes as vnodes, sigs, tags as vtags
 from vt.rec import Sentinel
 
 
@@ -47,7 +47,8 @@ class Seq(Node):
     return list(self.items)
 
   def sketch(self, seen):
-    o, c = {'list': '[]', 'tuple': '()', 'point': ('Point(', ')'), 'pair': ('Pair(', ')')}[self.typ]
+    o, c = {'list': '[]', 'tuple': '()', 'point': ('Point(', ')'), 'pair': ('Pair(', ')'),
+            'tempbox': ('TempBox(', ')')}[self.typ]
     return f'{o}{", ".join(sk(i, seen) for i in self.items)}{c}'
 
 
@@ -155,14 +156,31 @@ def clone(n, memo=None):
     r = B(n.btype, n.fn, [clone(c, memo) for c in n.pos],
           {k: clone(v, memo) for k, v in n.kw.items()},
           {k: set(v) for k, v in n.tags.items()})
+    _refresh_uid(r)
   memo[n.uid] = r
   return r
+
+
+def _refresh_uid(b):
+  """A clone is an equal-but-distinct node: it keeps everything except its uid."""
+  if 'uid' in b.kw and isinstance(b.kw['uid'], Leaf):
+    b.kw['uid'] = Leaf(next(Node._ids) + 100000)
+    return
+  try:
+    names = [p.name for p in inspect.signature(b.fn).parameters.values()
+             if p.kind in (p.POSITIONAL_ONLY, p.POSITIONAL_OR_KEYWORD)]
+  except (TypeError, ValueError):
+    return
+  if 'uid' in names and names.index('uid') < len(b.pos) and isinstance(b.pos[names.index('uid')], Leaf):
+    b.pos[names.index('uid')] = Leaf(next(Node._ids) + 100000)
 
 
 # ---------------------------------------------------------------------------------------
 # realisation
 
 BTYPES = {'Config': fdl.Config, 'Partial': fdl.Partial, 'ArgFactory': fdl.ArgFactory}
+SEQ_MAKERS = {'list': list, 'tuple': tuple, 'point': lambda it: kinds.Point(*it),
+              'pair': lambda it: kinds.Pair(*it), 'tempbox': vnodes.TempBox}
 
 
 def to_fiddle(n, memo=None):
@@ -173,8 +191,7 @@ def to_fiddle(n, memo=None):
     r = n.value
   elif isinstance(n, Seq):
     items = [to_fiddle(c, memo) for c in n.items]
-    r = {'list': list, 'tuple': tuple,
-         'point': lambda it: kinds.Point(*it), 'pair': lambda it: kinds.Pair(*it)}[n.typ](items)
+    r = SEQ_MAKERS[n.typ](items)
   elif isinstance(n, Map):
     r = collections.defaultdict(list) if n.typ == 'defaultdict' else {}
     for k, v in n.items:
@@ -205,8 +222,7 @@ def to_direct(n, memo=None):
     r = n.value
   elif isinstance(n, Seq):
     items = [to_direct(c, memo) for c in n.items]
-    r = {'list': list, 'tuple': tuple,
-         'point': lambda it: kinds.Point(*it), 'pair': lambda it: kinds.Pair(*it)}[n.typ](items)
+    r = SEQ_MAKERS[n.typ](items)
   elif isinstance(n, Map):
     r = collections.defaultdict(list) if n.typ == 'defaultdict' else {}
     for k, v in n.items:
@@ -295,8 +311,8 @@ class DagGen:
     if typ in ('dict', 'defaultdict'):
       keys = rng.sample(self.o.dict_keys, rng.randint(0, min(3, len(self.o.dict_keys))))
       n = Map(typ, [(k, self.child(depth + 1)) for k in keys])
-    elif typ == 'point':
-      n = Seq('point', [self.child(depth + 1), self.child(depth + 1)])
+    elif typ in ('point', 'pair'):
+      n = Seq(typ, [self.child(depth + 1), self.child(depth + 1)])
     else:
       n = Seq(typ, [self.child(depth + 1) for _ in range(rng.randint(0, 3))])
     if self.o.tagged_values and isinstance(n, (Seq, Map)) and rng.random() < 0.3 and typ in ('list', 'dict'):
